@@ -974,6 +974,7 @@ func (x *dexec) final() {
 			}
 		}
 	} else {
+		nilSeen := -1
 		for i := 0; i < 200; i++ {
 			var err error
 			fb := x.wr.faults
@@ -984,6 +985,13 @@ func (x *dexec) final() {
 			}
 			x.invariantsLight()
 			if err == nil {
+				// (C06 only) a writer that took fewer bytes than offered without
+				// an error leaves a Flush that returned nil with bytes pending:
+				// the caller flushes again
+				if x.wr.nilAns > nilSeen && len(x.handed) < len(x.ref) {
+					nilSeen = x.wr.nilAns
+					continue
+				}
 				break
 			}
 			if !x.checkWriterErr("flush", fb, err) {
